@@ -296,47 +296,29 @@ theorem txDec_enc (era : Nat) (body : Bytes) (he : era ≤ 255) (hb : body.lengt
     TxMonitor.txDec ((E.arr 2 [.uint era, .tag 24 (.bytes body)]).encode ++ r) = .ok (era, body) r := by
   simp [TxMonitor.txDec, tuple2, array_arr, u8_uint, tag_tag, bytes_bytes, he, hb]
 
-/-- `ResponseNextTx(None)` is `[6]`, and the decoder decides between `None` and `Some` by looking at
-    the type of whatever comes *after* the label — so reading it back is only guaranteed when the
-    message is not followed by further bytes (`r = []`), which is how C22 states the round trip. -/
-def SpecTM (m : TxMonitor.Msg) : Prop :=
-  (TxMonitor.Msg.enc m).ok = true ∧
-    ∀ r, (m = .responseNextTx none → r = []) → TxMonitor.Msg.dec ((TxMonitor.Msg.enc m).encode ++ r) = .ok m r
-
-theorem TxMonitor.Msg.spec (m : TxMonitor.Msg) (h : m.valid = true) : SpecTM m := by
+theorem TxMonitor.Msg.spec (m : TxMonitor.Msg) (h : m.valid = true) : Spec TxMonitor.Msg.enc TxMonitor.Msg.dec m := by
   cases m with
   | done | acquire | release | awaitAcquire | requestNextTx | requestSizeAndCapacity =>
-    exact ⟨by simp [Msg.enc], fun r _ => by simp [Msg.enc, Msg.dec, array_arr, u16_uint]⟩
+    exact ⟨by simp [Msg.enc], fun r => by simp [Msg.enc, Msg.dec, array_arr, u16_uint]⟩
   | acquired s =>
     simp [Msg.valid] at h
-    exact ⟨by simp [Msg.enc, h], fun r _ => by simp [Msg.enc, Msg.dec, array_arr, u16_uint, u64_uint, h]⟩
+    exact ⟨by simp [Msg.enc, h], fun r => by simp [Msg.enc, Msg.dec, array_arr, u16_uint, u64_uint, h]⟩
   | requestHasTx id =>
     simp [Msg.valid] at h
-    exact ⟨by simp [Msg.enc, h], fun r _ => by simp [Msg.enc, Msg.dec, array_arr, u16_uint, str_text, h]⟩
+    exact ⟨by simp [Msg.enc, h], fun r => by simp [Msg.enc, Msg.dec, array_arr, u16_uint, str_text, h]⟩
   | responseHasTx b =>
-    exact ⟨by simp [Msg.enc], fun r _ => by simp [Msg.enc, Msg.dec, array_arr, u16_uint, bool_bool]⟩
+    exact ⟨by simp [Msg.enc], fun r => by simp [Msg.enc, Msg.dec, array_arr, u16_uint, bool_bool]⟩
   | responseSizeAndCapacity c s n =>
     simp [Msg.valid] at h
-    exact ⟨by simp [Msg.enc]; omega, fun r _ => by simp [Msg.enc, Msg.dec, array_arr, u16_uint, u32_uint, h]⟩
+    exact ⟨by simp [Msg.enc]; omega, fun r => by simp [Msg.enc, Msg.dec, array_arr, u16_uint, u32_uint, h]⟩
   | responseNextTx tx =>
     cases tx with
-    | none =>
-      refine ⟨by simp [Msg.enc], fun r hr => ?_⟩
-      rw [hr rfl]
-      have h1 := array_arr 1 [E.uint 6] (by omega) []
-      have h2 := u16_uint 6 (by omega) []
-      simp only [List.append_nil, E.encodeList] at h1 h2
-      simp [Msg.enc, Msg.dec, h1, h2, datatype]
+    | none => exact ⟨by simp [Msg.enc], fun r => by simp [Msg.enc, Msg.dec, array_arr, u16_uint]⟩
     | some eb =>
       obtain ⟨era, body⟩ := eb
       simp [Msg.valid] at h
-      refine ⟨by simp [Msg.enc, h]; omega, fun r _ => ?_⟩
-      simp [Msg.enc, Msg.dec, array_arr, u16_uint, datatype_arr, txDec_enc era body h.1 h.2]
-
-/-- the read-ahead is real: `[6]` followed by an array head is not read back as `None` -/
-theorem TxMonitor.responseNextTx_none_reads_ahead :
-    TxMonitor.Msg.dec ((TxMonitor.Msg.enc (.responseNextTx none)).encode ++ [0x81, 0x05]) ≠ .ok (.responseNextTx none) [0x81, 0x05] := by
-  decide
+      refine ⟨by simp [Msg.enc, h]; omega, fun r => ?_⟩
+      simp [Msg.enc, Msg.dec, array_arr, u16_uint, txDec_enc era body h.1 h.2]
 
 /-! ### localstate -/
 
